@@ -45,7 +45,7 @@ def make_run_one(num_slots, lookups, n_opts=3, reduce=True):
     def run(chooser):
         loop = vloopx.XLoop(chooser)
         loop.anon_prefix = 'load-task'
-        loop.sort_ready_in_state = True
+        loop.ext_mode = True  # FIFO ready queue + environment-completed external events / same-instant timers (see vloopx)
         loads = []
         ph = [('new',)] * m
         results = [None] * m
@@ -81,7 +81,7 @@ def make_run_one(num_slots, lookups, n_opts=3, reduce=True):
                 if opt == 1:
                     await asyncio.sleep(1)
                 else:
-                    await asyncio.sleep(0)
+                    await vloopx.ext_yield()
                 if opt == 2:
                     ld['stage'] = 'raised'
                     ld['end_t'] = vloop.now()
@@ -98,10 +98,13 @@ def make_run_one(num_slots, lookups, n_opts=3, reduce=True):
 
         async def looker(i):
             k, a, _ = lookups[i]
-            if a > 0:
+            if True:
                 ph[i] = ('sleep',)
                 try:
-                    await asyncio.sleep(a)
+                    if a > 0:
+                        await asyncio.sleep(a)
+                    else:
+                        await vloopx.ext_yield()  # arrival at t=0 is an external event too: lookups arrive in any order
                 except asyncio.CancelledError:
                     ph[i] = ('done',)
                     results[i] = ('cancelled-before-lookup',)
@@ -156,6 +159,7 @@ def make_run_one(num_slots, lookups, n_opts=3, reduce=True):
         async def controller(v, t):
             if t > 0:
                 await asyncio.sleep(t)
+            await vloopx.ext_yield()  # the cancellation lands at a moment of the environment's choosing within that instant
             st['kinds'][v] = classify(v)
             tasks[v].cancel()
 
@@ -202,8 +206,6 @@ def make_run_one(num_slots, lookups, n_opts=3, reduce=True):
             live_victims = {tasks[i] for i in range(m) if lookups[i][2] is not None and i not in st['kinds'] and i in tasks}
             return not (aff & live_victims)
 
-        if reduce:
-            loop.independent = independent
         loop.state_fn = state
         loop.step_hook = hook
         loop.run(setup(), max_steps=50)
@@ -349,7 +351,7 @@ def check(tier, seed, procs):
         'schedules_executed': execs,
         'distinct_outcomes': outcomes,
         'executions_by_feature': dict(sorted(cnt.items())),
-        'deviation_bound': 'unbounded (every order of runnable callbacks and every load behaviour, state-hash pruned)',
+        'deviation_bound': 'unbounded (every order of external-event/timer completions over a FIFO ready queue and every load behaviour, state-hash pruned)',
         'bounds': (f'lifetime {LIFETIME}s; num_slots 1-2; '
                    + ('2 lookups (keys a,b; arrivals 0/10/11 s; <=1 cancelled, controller at 0 or 10 s; loads return after a yield | raise | '
                       'return after 1 s), 3 lookups (arrivals 0/11; loads return after a yield | raise; key a only with <=1 cancelled at 0 | keys a,b, none cancelled)'
@@ -371,7 +373,11 @@ def check(tier, seed, procs):
             'every execution is the real TimeLimitedMaxSizeCache on a virtual asyncio loop; time.monotonic_ns is the virtual clock',
             'virtual time advances only when no callback is runnable (callbacks take zero time), so a value is stored at the instant its load completed',
             'prometheus_client / prometheus_async are shims: counters are no-ops and prometheus_async.aio.time(metric, fut) awaits fut in the caller\'s task, as the real one does',
-            'keys are interchangeable and lookups are enumerated as multisets (every callback order is explored)',
+            'keys are interchangeable and lookups are enumerated as multisets (arrivals are external events / timers, so every arrival order is explored)',
+            'only schedules real asyncio can produce: the ready queue is FIFO (a new task takes its first step in creation order, before '
+            'anything queued later); the environment decides when each external event completes (every yield of a harness body, '
+            'arrivals, the cancellation) and which of the timers due at one instant fires next, and appends that completion at the '
+            'end of the ready queue; every such order is explored',
             'a value exactly `lifetime` old is not "older than its lifetime"; a lookup that never completes is counted but not judged',
         ],
         # a reported violation is itself evidence that the run was not vacuous (a broken implementation may skip a feature)
